@@ -1,5 +1,6 @@
 import BoltonsVerif.Common
 import BoltonsVerif.C15.Model
+import BoltonsVerif.C15.Session
 /-
 C15 line protocol.  One line = one call:
 
@@ -15,6 +16,18 @@ C15 line protocol.  One line = one call:
 
 Output:  `err ValueError` | `fuel` | `ok v,v,…` (`ok -` when empty) | `rep v,v,…`
   values: `F` → 16 hex digits; `Q` → `num/den` in lowest terms
+
+or one whole SESSION of one caller (several calls, see Session.lean):
+
+    S|<inst>|<op>;<op>;…
+
+  op   `L <start> <stop> <count> <factor> <jitter> <draws>`   `backoff(...)`, creates object number (calls so far)
+       `I <start> <stop> <count> <factor> <jitter> <draws>`   `backoff_iter(...)`, likewise
+       `P <k> <n>`      `next()` n times on object k
+       `M <k> pop0|pop|clear|rev|keep1|app <x>|set0 <x>`      the caller changes list k
+       `R <k>`          the caller looks at list k again
+Output: the observations joined by ` ; `:  `ok v,…` | `err ValueError` | `fuel` | `gen` |
+  `vals v,… end|more` | `mut` | `skip`
 -/
 namespace C15.Driver
 open BV C15
@@ -76,9 +89,63 @@ def runCase (parse : String → Option α) (shw : α → String)
     | some (.finite vals) => "ok " ++ shows vals
     | some (.endless val) => "rep " ++ shows ((List.range tk).map val)
   | _, _, _, _, _, _, _ => "bad-op"
+def parseMut? (parse : String → Option α) : List String → Option (Mut α)
+  | ["pop0"] => some .pop0
+  | ["pop"] => some .pop
+  | ["clear"] => some .clear
+  | ["rev"] => some .rev
+  | ["keep1"] => some .keep1
+  | ["app", x] => (parse x).map .app
+  | ["set0", x] => (parse x).map .set0
+  | _ => none
+
+def parseOp? (parse : String → Option α) : List String → Option (Op α)
+  | [fn, start, stop, count, factor, jitter, draws] =>
+    match parse start, parse stop, parseCount? count, parse factor, parse jitter,
+          (if draws = "-" then some [] else listM? parse (splitOnChar draws ',')) with
+    | some st, some sp, some c, some f, some j, some rs =>
+      let p : Params α := { start := st, stop := sp, factor := f, count := c, jitter := j }
+      let r : Nat → α := fun i => rs.getD i 0
+      if fn = "L" then some (.callL p r) else if fn = "I" then some (.callI p r) else none
+    | _, _, _, _, _, _ => none
+  | ["P", k, n] =>
+    match k.toNat?, n.toNat? with
+    | some k, some n => some (.pull k n)
+    | _, _ => none
+  | "M" :: k :: rest =>
+    match k.toNat?, parseMut? parse rest with
+    | some k, some m => some (.chg k m)
+    | _, _ => none
+  | ["R", k] => k.toNat?.map .read
+  | _ => none
+
+def showObs (shw : α → String) : Obs α → String
+  | .err => "err ValueError"
+  | .fuel => "fuel"
+  | .vals l => "ok " ++ (if l.isEmpty then "-" else ",".intercalate (l.map shw))
+  | .gen => "gen"
+  | .pulled l e => "vals " ++ (if l.isEmpty then "-" else ",".intercalate (l.map shw)) ++ (if e then " end" else " more")
+  | .mutated => "mut"
+  | .skip => "skip"
+  | .badIndex => "bad-op"
+
+def runSession (parse : String → Option α) (shw : α → String) (ops : String) : String :=
+  match listM? (fun o => parseOp? parse (words o)) (splitOnChar ops ';') with
+  | some ops =>
+    let obs := (run fuel [] ops).map (showObs shw)
+    if obs.contains "bad-op" then "bad-op" else " ; ".intercalate obs
+  | none => "bad-op"
 end
 
 def handle (line : String) : String :=
+  match splitOnChar line '|' with
+  | ["S", inst, ops] =>
+    if inst = "F" then
+      runSession (α := Float) (fun s => (hex64? s).map Float.ofBits) (fun x => toHex64 x.toBits) ops
+    else if inst = "Q" then
+      runSession (α := Rat) (fun s => (hex64? s).bind ratOfBits) showRat ops
+    else "bad-op"
+  | _ =>
   match words line with
   | [inst, fn, start, stop, count, factor, jitter, take, draws] =>
     if inst = "F" then
